@@ -290,52 +290,48 @@ class World(EventDispatcher):
             f'Entity ID must be hashble, found {entity}, which is not')
 
         if immediate:
-            for component_type in self._entities[entity]:
-                self._components[component_type].discard(entity)
-
-                if not self._components[component_type]:
-                    del self._components[component_type]
-
-            del self._entities[entity]
-
+            self._delete_entity_now(entity)
         else:
             self._dead_entities.add(entity)
 
-    def _clear_dead_entities(self):
-        """Finalize deletion of any entities marked as dead.
+    def _delete_entity_now(self, entity: Hashable):
+        """Remove an entity and all of its components, right away.
 
-        In the interest of performance, this method duplicates code from
-        the :meth:`delete_entity` method. If that method is changed,
-        those changes should be duplicated here as well.
+        Removal events (``on_remove``) are handled for each component.
+
+        Raises a ``KeyError`` if the given entity does not exist.
         """
+        for component_type, component in self._entities[entity].items():
+            self._components[component_type].discard(entity)
+
+            if not self._components[component_type]:
+                del self._components[component_type]
+
+            # Event handling
+            if hasattr(component, '__events__'):
+                # Code replication
+                # If dispatching is enabled, call on_remove directly
+                # to gain performance. Otherwise an event is dispatched
+                if (ON_REMOVE_EVENT_NAME in component.__events__
+                        and self._dispatch_enabled):
+                    getattr(component,
+                            component.__events__[ON_REMOVE_EVENT_NAME])(
+                                entity, self)
+                # on_remove exists but dispatching is disabled
+                elif (ON_REMOVE_EVENT_NAME in component.__events__
+                        and not self._dispatch_enabled):
+                    self.dispatch(ON_SINGLE_DISPATCH_EVENT_NAME,
+                                  ON_REMOVE_EVENT_NAME,
+                                  component, entity, self)
+
+                self.remove_handler(component)
+
+        del self._entities[entity]
+
+    def _clear_dead_entities(self):
+        """Finalize deletion of any entities marked as dead."""
         for entity in self._dead_entities:
-
-            for component_type, component in self._entities[entity].items():
-                self._components[component_type].discard(entity)
-
-                if not self._components[component_type]:
-                    del self._components[component_type]
-
-                # Event handling
-                if hasattr(component, '__events__'):
-                    # Code replication
-                    # If dispatching is enabled, call on_remove directly
-                    # to gain performance. Otherwise an event is dispatched
-                    if (ON_REMOVE_EVENT_NAME in component.__events__
-                            and self._dispatch_enabled):
-                        getattr(component,
-                                component.__events__[ON_REMOVE_EVENT_NAME])(
-                                    entity, self)
-                    # on_remove exists but dispatching is disabled
-                    elif (ON_REMOVE_EVENT_NAME in component.__events__
-                            and not self._dispatch_enabled):
-                        self.dispatch(ON_SINGLE_DISPATCH_EVENT_NAME,
-                                      ON_REMOVE_EVENT_NAME,
-                                      component, entity, self)
-
-                    self.remove_handler(component)
-
-            del self._entities[entity]
+            self._delete_entity_now(entity)
 
         self._dead_entities.clear()
 
